@@ -2017,6 +2017,7 @@ func (t *Topic) anotherUserSub(sess *Session, asUid, target types.Uid, asChan bo
 			// Save changed value to database
 			if err := store.Subs.Update(t.name, target,
 				map[string]any{"ModeGiven": modeGiven}); err != nil {
+				sess.queueOut(ErrUnknownReply(pkt, now))
 				return nil, err
 			}
 
